@@ -250,7 +250,23 @@ where
         // Self-remove proposals never generate welcomes (only Add proposals do),
         // so we can safely ignore the welcome output here
         let (commit_message, _welcomes, _group_info) =
-            mls_group.commit_to_pending_proposals(&self.provider, &mls_signer)?;
+            match mls_group.commit_to_pending_proposals(&self.provider, &mls_signer) {
+                Ok(bundle) => bundle,
+                Err(_) => {
+                    // The commit cannot be created right now (typically because this admin
+                    // holds a pending commit of its own). The proposal is already queued, so
+                    // report it as such - exactly what a non-admin receiver does - instead of
+                    // reporting a failure for an event that did take effect.
+                    tracing::debug!(
+                        target: "mdk_core::messages::process_proposal",
+                        "Could not auto-commit self-remove proposal now; keeping it pending"
+                    );
+                    self.mark_processed(event, group_id, mls_group.epoch().as_u64())?;
+                    return Ok(MessageProcessingResult::PendingProposal {
+                        mls_group_id: group_id.clone(),
+                    });
+                }
+            };
 
         let serialized_commit_message = commit_message
             .tls_serialize_detached()
